@@ -118,14 +118,44 @@ def rule_sinks(ck: Check, repo: Repo, cg: CallGraph, ot: OrderTaint) -> None:
     # canonisers that today's tree relies on
     fr = repo.func("reuse.report.FileReport.generate")
     src = re.sub(r"\s+", " ", ast.unparse(fr))
-    joined = "_LICENSING.parse(' AND '.join((f'({expression})' for reuse_info in reuse_infos for expression in reuse_info.spdx_expressions))).simplify().render()" in src
-    r.instance("license_concluded-canonised", {"simplify_after_join": joined})
-    if "' AND '.join(" in src and not joined:
+    # structural: a string joined from set-ordered pieces is canonised before it is stored (simplify() sorts the operands of the
+    # concluded licence; the notices of the copyright text are sorted) - whatever the pieces are called
+    def _canonised(expr: ast.AST, canonisers: tuple) -> bool:
+        """Some call on the path from the join to the stored value is a canoniser (`X.simplify()`, `sorted(...)` around or
+        inside the join's argument)."""
+        for n in ast.walk(expr):
+            if isinstance(n, ast.Call):
+                f = n.func
+                if isinstance(f, ast.Attribute) and f.attr in canonisers:
+                    return True
+                if isinstance(f, ast.Name) and f.id in canonisers:
+                    return True
+        return False
+
+    from ..rules import deep_text
+    joins = [n for n in ast.walk(fr) if isinstance(n, ast.Call) and isinstance(n.func, ast.Attribute) and n.func.attr == "join"
+             and isinstance(n.func.value, ast.Constant)]
+    and_joins = [n for n in joins if n.func.value.value.strip() == "AND"]
+    joined = True
+    for j in and_joins:
+        # the statement that contains the join (resolved through single-assignment locals)
+        st = j
+        while parent_of(st) is not None and not isinstance(st, ast.stmt):
+            st = parent_of(st)
+        text = deep_text(fr, st.value) if isinstance(st, (ast.Assign, ast.AnnAssign)) and st.value is not None else ast.unparse(st)
+        tgt = st.targets[0].id if isinstance(st, ast.Assign) and isinstance(st.targets[0], ast.Name) else None
+        uses = [deep_text(fr, n2.value) for n2 in ast.walk(fr) if tgt and isinstance(n2, ast.Assign) and n2 is not st
+                and any(isinstance(x, ast.Name) and x.id == tgt for x in ast.walk(n2.value))]
+        ok_here = ".simplify()" in text or any(".simplify()" in u for u in uses)
+        joined = joined and ok_here
+    r.instance("license_concluded-canonised", {"and_joins": len(and_joins), "simplify_after_join": joined})
+    if and_joins and not joined:
         r.violation("reuse.report.FileReport.generate", "S5: concluded licence joins a set without canonising",
                     "the ' AND '.join over set-ordered expressions must go through simplify() (sorts operands) before it is rendered",
                     repo.loc(fr))
-    cp = "report.copyright = '\\n'.join(sorted((line for reuse_info in reuse_infos for line in reuse_info.copyright_lines)))" in src
-    r.instance("copyright-text-sorted", {"sorted": cp})
+    cps = [n for n in ast.walk(fr) if isinstance(n, ast.Assign) and any(ast.unparse(t) == "report.copyright" for t in n.targets)]
+    cp = bool(cps) and all(_canonised(ast.parse(deep_text(fr, n.value), mode="eval").body, ("sorted",)) for n in cps)
+    r.instance("copyright-text-sorted", {"assignments": len(cps), "sorted": cp})
     if not cp:
         r.violation("reuse.report.FileReport.generate", "S5: FileCopyrightText joins notices without sorting", "", repo.loc(fr))
     # the ORDER of the entries of the SPDX document (file sections, LicenseInfoInFile lines, extracted licences) is outside the
